@@ -141,6 +141,9 @@ class C18(Check):
                     stats["reopens"] += 1
                     res.label("reopen")
                     last = "reopen"
+                    if op.get("blind"):
+                        res.label("reopen:nothing-read-before-next-log")
+                        continue
                     self._check_state(hole, path, added, last, res)
                     if path_ok:
                         self._check_queries(hole, path, queries[: 12], tclass, "requery-after-reopen", res)
